@@ -1355,3 +1355,138 @@ Example ex_concurrent_locked_blocks :
       [0%nat; 0%nat; 0%nat; 1%nat; 1%nat] = Some s
      /\ cs_trace s = [EDeliver 0%nat 2%nat; EReturned 0%nat; EReturned 1%nat].
 Proof. split; [vm_compute; reflexivity|]. eexists. split; vm_compute; reflexivity. Qed.
+
+(** * Registration is atomic w.r.t. other subscribers' removals *)
+
+Lemma nth_set_cases {A} tid (x th y : A) l r :
+  nth_error l tid = Some th ->
+  nth_error (set_nth tid x l) r = Some y ->
+  (r = tid /\ y = x) \/ (r <> tid /\ nth_error l r = Some y).
+Proof.
+  intros Hth E. destruct (Nat.eq_dec tid r) as [<-|Hne].
+  - rewrite (nth_error_set_nth_eq _ _ _ _ Hth) in E. inversion E. auto.
+  - rewrite nth_error_set_nth_neq in E by assumption. right. split; [congruence|assumption].
+Qed.
+
+Definition add_active (q : path) (c : cid) (thr : list thread) : Prop :=
+  exists a, nth_error thr a = Some (TAdd q c WHold) \/ nth_error thr a = Some (TAdd q c WDone).
+
+Definition rem_idle (q : path) (c : cid) (thr : list thread) : Prop :=
+  forall r st, nth_error thr r = Some (TRem q c st) -> st = WIdle.
+
+(** once AddQuery(q, c) has taken effect and while no removal closure of that
+    pair has started, c is registered at q *)
+Definition added_inv (q : path) (c : cid) (s : cstate) : Prop :=
+  add_active q c (cs_thr s) -> rem_idle q c (cs_thr s) -> In c (clients_at (cs_trie s) q).
+
+Lemma added_inv_step q c s tid s' :
+  cinv s -> added_inv q c s -> cstep true s tid = Some s' -> added_inv q c s'.
+Proof.
+  intros (Hwf & _ & _) Hinv Hs. unfold cstep in Hs.
+  destruct (nth_error (cs_thr s) tid) as [th|] eqn:Hth; [|discriminate].
+  (* a step that changes neither the trie nor the state of an Add/Rem thread of (q, c) *)
+  assert (Hkeep : forall x,
+             cs_trie s' = cs_trie s -> cs_thr s' = set_nth tid x (cs_thr s) ->
+             (x = TAdd q c WHold \/ x = TAdd q c WDone -> th = TAdd q c WHold \/ th = TAdd q c WDone) ->
+             (forall st, th = TRem q c st -> st <> WIdle -> exists st', x = TRem q c st' /\ st' <> WIdle) ->
+             added_inv q c s').
+  { intros x Et Eth Hadd Hrem Hact Hidle. rewrite Et. rewrite Eth in Hact, Hidle. apply Hinv.
+    - destruct Hact as [a Ha]. destruct Ha as [Ha|Ha];
+        destruct (nth_set_cases _ _ _ _ _ _ Hth Ha) as [[-> Ex]|[Hne Ho]].
+      + exists tid. rewrite Hth. destruct (Hadd (or_introl (eq_sym Ex))) as [->| ->]; auto.
+      + exists a. auto.
+      + exists tid. rewrite Hth. destruct (Hadd (or_intror (eq_sym Ex))) as [->| ->]; auto.
+      + exists a. auto.
+    - intros r st Hr. destruct (Nat.eq_dec r tid) as [->|Hne].
+      + rewrite Hth in Hr. inversion Hr; subst. destruct st; [reflexivity| |].
+        * destruct (Hrem WHold eq_refl ltac:(discriminate)) as (st' & -> & Hst').
+          exfalso. apply Hst'. eapply Hidle. apply (nth_error_set_nth_eq _ _ _ _ Hth).
+        * destruct (Hrem WDone eq_refl ltac:(discriminate)) as (st' & -> & Hst').
+          exfalso. apply Hst'. eapply Hidle. apply (nth_error_set_nth_eq _ _ _ _ Hth).
+      + apply (Hidle r). rewrite nth_error_set_nth_neq by (intros E; apply Hne; now symmetry). exact Hr. }
+  destruct th as [p upd [|[|c0 l]|]|q0 c0 [| |]|q0 c0 [| |]]; try discriminate.
+  - destruct (cs_writer s); [discriminate|]. csplit_inv Hs.
+    eapply Hkeep; cbn; eauto; [intros [E|E]; discriminate|intros st E; discriminate].
+  - csplit_inv Hs. eapply Hkeep; cbn; eauto; [intros [E|E]; discriminate|intros st E; discriminate].
+  - csplit_inv Hs. eapply Hkeep; cbn; eauto; [intros [E|E]; discriminate|intros st E; discriminate].
+  - (* another (or this) pair's removal enters its critical section *)
+    destruct (cs_writer s || negb (cs_readers s =? 0)%nat); [discriminate|]. csplit_inv Hs.
+    intros Hact Hidle. cbn in *.
+    assert (Hneq : ~ (q = q0 /\ c = c0)).
+    { intros [-> ->]. specialize (Hidle tid WHold (nth_error_set_nth_eq _ _ _ _ Hth)). discriminate. }
+    rewrite clients_at_remove_root by assumption. split; [|exact Hneq].
+    apply Hinv.
+    + destruct Hact as [a Ha]. exists a.
+      destruct Ha as [Ha|Ha]; destruct (nth_set_cases _ _ _ _ _ _ Hth Ha) as [[_ Ex]|[_ Ho]];
+        try discriminate; auto.
+    + intros r st Hr. destruct (Nat.eq_dec r tid) as [->|Hne].
+      * rewrite Hth in Hr. inversion Hr; subst. reflexivity.
+      * apply (Hidle r). rewrite nth_error_set_nth_neq by (intros E; apply Hne; now symmetry). exact Hr.
+  - csplit_inv Hs. eapply Hkeep; cbn; eauto; [intros [E|E]; discriminate|].
+    intros st E Hst. inversion E; subst. exists WDone. split; [reflexivity|discriminate].
+  - (* an AddQuery enters its critical section *)
+    destruct (cs_writer s || negb (cs_readers s =? 0)%nat); [discriminate|]. csplit_inv Hs.
+    intros Hact Hidle. cbn in *. rewrite clients_at_add_query.
+    destruct (path_eqb_spec q q0) as [->|Hq]; [destruct (Nat.eq_dec c c0) as [->|Hc]|]; [left; auto| |];
+      right; apply Hinv.
+    1,3: destruct Hact as [a Ha]; exists a;
+      destruct Ha as [Ha|Ha]; destruct (nth_set_cases _ _ _ _ _ _ Hth Ha) as [[_ Ex]|[_ Ho]];
+        try (inversion Ex; subst; congruence); auto.
+    1,2: intros r st Hr; destruct (Nat.eq_dec r tid) as [->|Hne];
+      [rewrite Hth in Hr; discriminate|apply (Hidle r); rewrite nth_error_set_nth_neq by (intros E; apply Hne; now symmetry); exact Hr].
+  - csplit_inv Hs. eapply Hkeep; cbn; eauto; [|intros st E; discriminate].
+    intros [E|E]; inversion E; subst; auto.
+Qed.
+
+(** For every interleaving of Update / UpdateOnce calls, removal closures and
+    AddQuery calls of any subscribers: once AddQuery(q, c) has RETURNED, and
+    until a removal closure of that pair is called, every Update of a
+    compatible path that starts is going to call c (unless its [updated] set
+    already holds c) -- whatever other subscribers register or remove on
+    shared prefixes meanwhile. *)
+Lemma registered_until_removed_concurrent t0 thr s a q c u p upd s' :
+  wf t0 -> forallb thread_idle thr = true ->
+  reachable_from (cstep true) (cinit t0 thr) s ->
+  nth_error (cs_thr s) a = Some (TAdd q c WDone) ->
+  rem_idle q c (cs_thr s) ->
+  compat q p = true ->
+  nth_error (cs_thr s) u = Some (TUpd p upd UIdle) ->
+  cstep true s u = Some s' ->
+  exists l, nth_error (cs_thr s') u = Some (TUpd p upd (UHold l)) /\
+            (In c l \/ exists set, upd = Some set /\ In c set).
+Proof.
+  intros Hwf Hidle Hr Ha Hrem Hc Hu Hs.
+  assert (Hboth : cinv s /\ added_inv q c s).
+  { apply (invariant (cstep true) (fun s => cinv s /\ added_inv q c s) (cinit t0 thr)); [| |exact Hr].
+    - split; [now apply cinv_init|]. intros [x Hx] _. exfalso. rewrite forallb_forall in Hidle.
+      destruct Hx as [Hx|Hx]; apply nth_error_In in Hx; apply Hidle in Hx; discriminate.
+    - intros s1 l1 s2 [H1 H2] Hst. split; [eapply cinv_step; eauto|eapply added_inv_step; eauto]. }
+  destruct Hboth as ((Hwf' & _ & _) & Hadd).
+  assert (Hin : In c (visit (cs_trie s) p)).
+  { apply visit_spec; [assumption|]. exists q. split; [|assumption]. apply Hadd; [|assumption].
+    exists a. auto. }
+  unfold cstep in Hs. rewrite Hu in Hs. destruct (cs_writer s); [discriminate|]. csplit_inv Hs.
+  cbn. eexists. split; [apply (nth_error_set_nth_eq _ _ _ _ Hu)|].
+  destruct upd as [set|].
+  - destruct (in_dec Nat.eq_dec c set) as [Hi|Hni]; [right; eauto|]. left.
+    destruct (deliver_some (visit (cs_trie s) p) set) as (_ & _ & _ & Hf & _). apply Hf. auto.
+  - left. now rewrite deliver_none.
+Qed.
+
+(** The split variant loses a registration: Y is registered at a/b, X's walk
+    finds the node a/b, Y's removal prunes it, X attaches below the node it
+    found -- and is registered nowhere, although AddQuery returns normally.
+    The code as it is registers X in the same situation. *)
+Lemma split_add_refuted :
+  exists t q c qy cy,
+    wf t /\
+    let j := prefix_len t q in
+    let t1 := remove_root qy cy t in
+    (forall q', ~ In c (clients_at (split_add_attach j q c t1) q')) /\
+    In c (clients_at (add_query q c t1) q).
+Proof.
+  exists (add_query ["a"; "b"] 1%nat empty_branch), ["a"; "b"; "c"], 2%nat, ["a"; "b"], 1%nat.
+  split; [apply wf_add_query, wf_empty|]. cbn zeta. split.
+  - intros q'. vm_compute. destruct q'; tauto.
+  - vm_compute. auto.
+Qed.
